@@ -30,8 +30,9 @@ CFG = {
                       "`turn as usize` is modelled for 64-bit targets (identity). The unchecked `+=` on leader_weight/offset is "
                       "modelled as panicking on overflow (dev profile) and proved never to overflow, so the wrapping release "
                       "profile computes the same values.",
-        "harness": "c11",
-        "n": {"quick": 3000, "thorough": 300000},
+        "harness": ["c11", "c05"],
+        "scope": {"c05": {"oracle_only": "newview_for_current_view_from_non_leader|handler panicked", "ignore_k": True}},
+        "n": {"quick": [3000, 1200], "thorough": [300000, 12000]},
         "rule": "each line carries a whole schedule (<= 12 validators out of a pool of 16 real BLS keys, ids = key ranks, random "
                 "listing order, weights small / mid / up to 2^64-1, random eligible subset, both modes, frequency 0 / 1 / small / "
                 "large / u64::MAX) and is one of: new (constructor; ~1/3 of them invalid: duplicate key, zero weight, sum >= 2^64, "
